@@ -86,6 +86,8 @@ func (o *Options) Load(c *cli.Context, useConfigFile bool) error {
 		return err
 	}
 	o.populateResolver(c)
+	// dates are printed in the format they are read in
+	o.ReporterConfig.DateFormat = o.GlobalConfig.DateFormat
 	o.populateReporter(c)
 	if err := o.populateFilter(c); err != nil {
 		return err
